@@ -21,8 +21,13 @@ for cid in ids:
         body = n.read_text().strip()
         body = "\n".join((("#" * min(len(l) - len(l.lstrip("#")) + 3, 6) + l[len(l) - len(l.lstrip("#")):]) if l.startswith("#") else l)
                          for l in body.splitlines())  # demote headings below "### 9.6.x"
-        sec = f"### 9.6.{cid} Build note for {cid} (written by the builder of that check)\n\n{body}\n\n"
-        if f"### 9.6.{cid} " not in design:
+        k = 1
+        title = f"### 9.6.{cid} Build note for {cid} (written by the builder of that check)"
+        while title.split(" Build")[0].split(" Addendum")[0] + " " in design and title in design or (k > 1 and f"### 9.6.{cid}.{k} " in design):
+            k += 1
+            title = f"### 9.6.{cid}.{k} Addendum {k - 1} to the build note of {cid} (deepening round, written by the engineer who did it)"
+        sec = f"{title}\n\n{body}\n\n"
+        if True:
             design = design.replace("---------------------------------------------------------------------------\n\n" + MARK,
                                     sec + "---------------------------------------------------------------------------\n\n" + MARK)
         n.unlink()
